@@ -1335,7 +1335,9 @@ Lemma step_rev_wf c s e : SInv s -> wf_rev e ->
 Proof.
   intros [H1 H2] He. destruct e as [raw|svs rs t]; cbn [step_rev wf_rev] in *.
   - destruct (step_line_wellformed c s raw H1 H2 He) as [R1 R2]. split; [split; [exact R1|apply step_line_tabs; exact H2]|exact R2].
-  - cbn [step_ev fst snd]. split; [|intros o []]. split; cbn [reqs tb]; [exact H1|].
+  - cbn [step_ev fst snd]. split; [|intros o []]. split; cbn [reqs tb].
+    { (* the pending requests forget the refilled slots: no printed field changes *)
+      apply Forall_forall. intros r' Hr. apply in_map_iff in Hr as (r & <- & Hr). exact (proj1 (Forall_forall _ _) H1 r Hr). }
     split; cbn [slots rules]; [apply services_changed_wf; [exact (proj1 H2)|exact (proj1 He)]|exact (proj2 He)].
 Qed.
 
